@@ -1,14 +1,16 @@
 #!/usr/bin/env python3
 """Copy confirmed sub-agent mutants from /tmp/mut_<ID>_out into /verif/seeded/<ID>-mN/."""
 import glob, json, os, shutil, sys
+PFX = os.environ.get("MUT_PREFIX", "mut_")
+OFF = int(os.environ.get("MUT_OFFSET", "0"))   # wave 2: m1 -> m3
 for ident in sys.argv[1:]:
-    outd = "/tmp/mut_%s_out" % ident
+    outd = "/tmp/%s%s_out" % (PFX, ident)
     ver = json.load(open(outd + "/verify.json"))
     for m, r in ver.items():
         if not isinstance(r, dict) or not r.get("confirmed"):
             print("skip", ident, m, "(not confirmed)")
             continue
-        dst = "/verif/seeded/%s-%s" % (ident, m)
+        dst = "/verif/seeded/%s-m%d" % (ident, int(m[1:]) + OFF)
         os.makedirs(dst, exist_ok=True)
         shutil.copy(outd + "/%s.diff" % m, dst + "/patch.diff")
         for demo in glob.glob(outd + "/%s_demo.*" % m):
